@@ -32,3 +32,8 @@ claim("C08", "bounded-exhaustive enumeration of scalar texts + generated members
       "loader and dumper classes (Python and C) and loaded by both safe loaders; the oracle is an independent character-level recogniser/evaluator of the YAML 1.1 type repository; "
       "the dump direction round-trips look-alike strings and generated ints/floats/bools/None/dates/datetimes under every default_style on both back-ends.",
       "Trusted: vlib/ref_scalar.py (the reference grammar is written out in its docstring), CPython float()/datetime for value arithmetic.")
+claim("C12", "property-based round-trip testing of multi-document streams at three levels (values, node graphs, events) with a metamorphic prefix-independence relation (Hypothesis)",
+      "Generated search: lists of 0..5 documents weighted towards the boundary roots the property names (empty / open-ended scalars, keep-chomped block scalars, empty and alias-only "
+      "collections, directives) x dump options x both dumpers x both loaders at value, node and event level; oracle: exactly n documents come back, each equal to its input, and the text "
+      "for the first k documents is a prefix of the text for all n (modulo the '...' STREAM-END adds after an open-ended last document).",
+      "Trusted: Hypothesis, vlib/compare.py, the node equality in checks/c12.py, the event equivalence of C05. Two libyaml-emitter known findings are excluded by case predicates.")
